@@ -22,6 +22,10 @@ class PathLimit(BaseException):
   pass
 
 
+class Pruned(BaseException):
+  """raised by hdecide() at harness level only: the path belongs to another shard of the job"""
+
+
 MAX_DECISIONS = int(os.environ.get('VERIF_MAX_DECISIONS', '2000'))
 QUERY_TIMEOUT_MS = int(os.environ.get('VERIF_QUERY_TIMEOUT_MS', '20000'))
 
@@ -54,6 +58,7 @@ class Engine(object):
     self.work = [[]]
     self.concrete_vals = None
     self.concrete_log = None
+    self.shard = None
 
   # ---------------------------------------------------------------- per path
   def begin(self, prefix):
@@ -73,6 +78,7 @@ class Engine(object):
     self.boundary_hits = []
     self.path_checked = False
     self.notes = []
+    self.hbits = []
 
   def add(self, *cs):
     if self.mode != 'sym':
@@ -157,6 +163,25 @@ class Engine(object):
     return b
 
   # ---------------------------------------------------------------- harness API
+  def hdecide(self, cond):
+    """a decision taken by the harness itself (never inside scales code).  The first D of them
+    select the shard of a job that is split over several workers."""
+    b = self.decide(cond) if not isinstance(cond, bool) else cond
+    if self.shard is not None and not isinstance(cond, bool):
+      i, n, D = self.shard
+      self.hbits.append(b)
+      if len(self.hbits) == D:
+        idx = int(''.join('1' if x else '0' for x in self.hbits), 2) % n
+        if idx != i:
+          self.pending = []
+          raise Pruned()
+    return b
+
+  def _mine(self):
+    if self.shard is None: return True
+    i, n, D = self.shard
+    return len(self.hbits) >= D or i == 0
+
   def assume(self, cond):
     self.flush_checks()
     if self.mode == 'concrete':
@@ -230,6 +255,9 @@ class Engine(object):
   def flush_checks(self):
     if self.mode != 'sym' or not self.pending:
       return
+    if not self._mine():
+      self.pending = []
+      return
     pend, self.pending = self.pending, []
     allc = z3.And([c for _, c, _ in pend]) if len(pend) > 1 else pend[0][1]
     r = self._check(z3.Not(allc))
@@ -286,11 +314,12 @@ def set_engine(e):
   ENG = e
 
 
-def explore(body, max_paths=10**7, stop_on_failure=True, first_prefix=None, soft_prefixes=()):
+def explore(body, max_paths=10**7, stop_on_failure=True, first_prefix=None, soft_prefixes=(), shard=None):
   """Run body() over every feasible path.  body() builds fresh state, runs the real code and
   calls check()/cover().  Returns the Engine with statistics, failures, covers."""
   E = Engine(); set_engine(E)
   E.level_complete = False
+  E.shard = shard
   if first_prefix: E.work = [list(first_prefix)]
   while E.work:
     pre = E.work.pop()
@@ -303,6 +332,12 @@ def explore(body, max_paths=10**7, stop_on_failure=True, first_prefix=None, soft
       E.path_checked = False
     except PathLimit:
       pass
+    except Pruned:
+      E.stats['pruned'] = E.stats.get('pruned', 0) + 1
+      E.path_checked = False; E.path_covers = set()
+      E.stats['paths'] -= 1
+    if not E._mine():
+      E.pending = []; E.path_checked = False; E.path_covers = set(); E.stats['paths'] -= 1
     E.end_path()
     E.started = True; E.level_complete = True
     if len(E.samples) < 3 and E.path_checked:
